@@ -1,6 +1,7 @@
 package main
 
 import (
+	"os"
 	"fmt"
 	"go/constant"
 	"go/token"
@@ -34,6 +35,9 @@ type Registration struct {
 	Call    *ssa.Call
 	Lit     *ssa.MapUpdate // registration written as an entry of a map literal
 	InInit  bool
+	At      token.Pos // where the registration happens, when it was found by evaluating the start-up code
+	// what the factory captured (a factory wrapping a constructor function captures that function: a constant, not state)
+	CapturesState bool
 }
 
 type Table struct {
@@ -46,6 +50,7 @@ type Table struct {
 	Lookups   []*ssa.Function
 	Regs      []*Registration
 	OtherRefs []ssa.Instruction // references that are neither the registrar's update nor the lookup's read
+	PtrRecord bool              // the variable holds a pointer to the record around the map (assigned once, by its initialiser)
 	// a table built on first use: `once.Do(func() { table = map…{…} })` inside an accessor that returns the table
 	Once     *ssa.Global   // the package-level sync.Once
 	OnceBody *ssa.Function // the function literal that builds the map (the only writer of the variable)
@@ -239,10 +244,21 @@ func (u *Universe) discoverTables() error {
 					}
 				}
 			}
+			ptrRecord := false
+			if !ok {
+				// … or a pointer to such a record, set once by the variable's initialiser (`var t = codec.NewFactoryTable[K]()`)
+				if pt, isP := g.Type().(*types.Pointer).Elem().Underlying().(*types.Pointer); isP {
+					if sv, isStruct := pt.Elem().Underlying().(*types.Struct); isStruct && sv.NumFields() == 1 {
+						if m2, ok2 := isFactoryMap(sv.Field(0).Type(), u.BinaryCodecIface); ok2 {
+							mt, ok, fieldIdx, ptrRecord = m2, true, 0, true
+						}
+					}
+				}
+			}
 			if !ok {
 				continue
 			}
-			t := &Table{Global: g, Pkg: shortPkg(pk.PkgPath), KeyType: mt.Key(), MapField: fieldIdx}
+			t := &Table{Global: g, Pkg: shortPkg(pk.PkgPath), KeyType: mt.Key(), MapField: fieldIdx, PtrRecord: ptrRecord}
 			t.Name = t.Pkg + "." + g.Name()
 			u.Tables = append(u.Tables, t)
 			u.TableByVar[g] = t
@@ -444,6 +460,30 @@ func (u *Universe) discoverTables() error {
 			}
 		}
 	}
+	// registrations the syntax does not give away (keys and factories in nested literal tables, factories wrapped by
+	// helpers, generic constructors): evaluate the package's init functions with the engine, loops over literal tables
+	// unrolled, and read the registrations off the map updates they perform
+	for _, t := range u.Tables {
+		need := false
+		for _, r := range t.Regs {
+			if r.KeyVal == nil || r.Closure == nil || !r.Fresh {
+				need = true
+			}
+		}
+		if !need {
+			continue
+		}
+		if regs := u.enumerateRegistrations(t); regs != nil {
+			// keep what the syntax found outside the evaluated init functions (map literals, once bodies)
+			var kept []*Registration
+			for _, r := range t.Regs {
+				if r.Lit != nil {
+					kept = append(kept, r)
+				}
+			}
+			t.Regs = append(kept, regs...)
+		}
+	}
 	for _, t := range u.Tables {
 		sort.SliceStable(t.Regs, func(i, j int) bool {
 			if t.Regs[i].Key != t.Regs[j].Key {
@@ -456,8 +496,155 @@ func (u *Universe) discoverTables() error {
 	return nil
 }
 
+// enumerateRegistrations evaluates the declared init functions of the table's package and returns one registration
+// per update of the table they perform – nil when that cannot be done exactly (a path is undecided, a key is not a
+// constant, an update goes through something the engine does not follow).
+func (u *Universe) enumerateRegistrations(t *Table) []*Registration {
+	var inits []*ssa.Function
+	for fn := range u.P.AllFuncs {
+		if fn.Pkg == t.Global.Pkg && fn.Blocks != nil && isInitFunc(fn) && fn.Name() != "init" && !u.P.IsTestFile(fn.Pos()) {
+			inits = append(inits, fn)
+		}
+	}
+	sort.Slice(inits, func(i, j int) bool { return inits[i].Name() < inits[j].Name() })
+	var out []*Registration
+	for _, fn := range inits {
+		e := NewEngine(u.P)
+		e.UnrollMax = 4096
+		e.MaxPaths = 64
+		paths, err := e.AnalyzeRoot(fn, nil)
+		if err != nil || len(paths) != 1 || paths[0].Trunc != "" || paths[0].Panic {
+			// more than one way through an init function: only acceptable if none of them touches this table
+			touches := false
+			for _, p := range paths {
+				walkEvents(p.Events, func(ev *Event, _ int) {
+					if ev.Kind == EvMapWrite && tableName(ev.Recv) == t.Name {
+						touches = true
+					}
+				})
+			}
+			if touches || err != nil {
+				return nil
+			}
+			continue
+		}
+		bad := false
+		walkEvents(paths[0].Events, func(ev *Event, depth int) {
+			if ev.Kind != EvMapWrite || tableName(ev.Recv) != t.Name {
+				return
+			}
+			if ev.Mode != "update" || len(ev.Args) != 2 || depth != 0 {
+				bad = true
+				return
+			}
+			k := stripCT(ev.Args[0])
+			for k.Op == "conv" && len(k.Args) == 1 {
+				k = stripCT(k.Args[0])
+			}
+			if !k.IsConst() || k.C == nil {
+				bad = true
+				return
+			}
+			r := &Registration{InInit: true, At: ev.Pos, KeyVal: k.C, Key: k.C.ExactString()}
+			if kb, ok := t.KeyType.Underlying().(*types.Basic); ok && kb.Info()&types.IsInteger != 0 && k.C.Kind() == constant.Int && !representable(k.C, kb) {
+				bad = true
+				return
+			}
+			f := stripCT(ev.Args[1])
+			for f.Op == "conv" && len(f.Args) == 1 {
+				f = stripCT(f.Args[0])
+			}
+			var ffn *ssa.Function
+			var free []*Val
+			switch f.Op {
+			case "func":
+				ffn, _ = f.Aux.(*ssa.Function)
+			case "closure":
+				ffn, _ = f.Aux.(*ssa.Function)
+				free = f.Args
+			}
+			if ffn != nil {
+				r.Closure = ffn
+				cells := map[string]memEntry{}
+				for _, b := range free {
+					sb := stripCT(b)
+					if sb != nil && sb.Op == "alloc" {
+						// a captured variable (Go captures by reference): what the cell holds when start-up is over
+						if me, has := paths[0].Mem[sb.Key()]; has {
+							if cv := stripCT(me.V); cv != nil && (cv.Op == "func" || cv.IsConst()) {
+								cells[sb.Key()] = me
+								continue
+							}
+						}
+					}
+					if sb == nil || !(sb.Op == "func" || sb.IsConst()) {
+						r.CapturesState = true
+					}
+				}
+				r.Type, r.Fresh = u.factoryByEvaluation(ffn, free, cells)
+				if os.Getenv("FPDEBUG") != "" {
+					fmt.Fprintln(os.Stderr, "enumerated", t.Name, r.Key, ffn.String(), "free", prettyVals(free), "->", r.Type, r.Fresh, r.CapturesState)
+				}
+			}
+			out = append(out, r)
+		})
+		if bad {
+			return nil
+		}
+	}
+	return out
+}
+
+// factoryByEvaluation: every way through the factory (with what it captured) returns a value allocated by this very
+// call, of one codec type.
+func (u *Universe) factoryByEvaluation(fn *ssa.Function, free []*Val, cells map[string]memEntry) (string, bool) {
+	if name, fresh := u.factoryResult(fn); fresh {
+		return name, true
+	}
+	e := NewEngine(u.P)
+	e.MaxPaths = 64
+	e.InitMem = cells
+	paths, err := e.AnalyzeRootFree(fn, nil, free)
+	if err != nil || len(paths) == 0 {
+		return "", false
+	}
+	tname := ""
+	for _, p := range paths {
+		if p.Panic || p.Trunc != "" || len(p.Ret) != 1 {
+			return "", false
+		}
+		v := stripIface(stripCT(p.Ret[0]))
+		for v != nil && v.Op == "conv" && v.Name == "changetype" && len(v.Args) == 1 {
+			v = stripIface(stripCT(v.Args[0]))
+		}
+		if v == nil || v.Op != "alloc" || v.Type == nil {
+			return "", false
+		}
+		ct := u.TypeOf(v.Type)
+		if ct == nil || (tname != "" && tname != ct.Name) {
+			return "", false
+		}
+		tname = ct.Name
+		// nothing else may happen: no store of the object anywhere, no call outside the model
+		escapes := false
+		walkEvents(p.Events, func(ev *Event, _ int) {
+			switch ev.Kind {
+			case EvStore, EvMapWrite, EvCall, EvGo, EvLock, EvAtomic:
+				escapes = true
+			}
+		})
+		if escapes {
+			return "", false
+		}
+	}
+	return tname, tname != ""
+}
+
 // Pos: where the registration is written (a registrar call or an entry of a map literal).
 func (r *Registration) Pos() token.Pos {
+	if r.At.IsValid() {
+		return r.At
+	}
 	if r.Call != nil {
 		return r.Call.Pos()
 	}
@@ -473,6 +660,55 @@ func isInitFunc(fn *ssa.Function) bool {
 
 // classifyTableRef: an instruction that mentions the table's global.
 func (u *Universe) classifyTableRef(t *Table, fn *ssa.Function, in ssa.Instruction) {
+	if t.PtrRecord {
+		switch x := in.(type) {
+		case *ssa.Store:
+			// the initialiser: variable = constructor() returning a fresh record
+			if isInitFunc(fn) && x.Addr == ssa.Value(t.Global) && freshNonNil(x.Val, 0) {
+				return
+			}
+		case *ssa.UnOp:
+			// the pointer loaded and handed to methods (or helpers) that reach the map through the record's field
+			if x.X == ssa.Value(t.Global) {
+				okAll := true
+				for _, r := range *x.Referrers() {
+					switch r := r.(type) {
+					case *ssa.DebugRef:
+					case *ssa.Call:
+						switch structMapUse(r, x, t.MapField, 0) {
+						case "lookup":
+							addFn(&t.Lookups, fn)
+						case "update":
+							addFn(&t.Registrar, fn)
+						default:
+							okAll = false
+							t.OtherRefs = append(t.OtherRefs, r)
+						}
+					case *ssa.FieldAddr:
+						if r.Field == t.MapField {
+							switch fieldMapUse(r, 0) {
+							case "lookup":
+								addFn(&t.Lookups, fn)
+								continue
+							case "update":
+								addFn(&t.Registrar, fn)
+								continue
+							}
+						}
+						okAll = false
+						t.OtherRefs = append(t.OtherRefs, r)
+					default:
+						okAll = false
+						t.OtherRefs = append(t.OtherRefs, r)
+					}
+				}
+				_ = okAll
+				return
+			}
+		}
+		t.OtherRefs = append(t.OtherRefs, in)
+		return
+	}
 	if t.MapField >= 0 {
 		// the table is a record around the map: its address handed to a method (or helper) that reaches the map
 		// through that field, or the field taken here
